@@ -6,11 +6,240 @@ import (
 	v "github.com/aml-org/amf-custom-validator/internal/zzverif"
 )
 
-func VerifDebugParse() {
-	p, err := Parse("", []byte("apiContract.path"), Recover(false))
-	v.Note("res", "x")
-	_ = p
-	if err != nil {
-		panic(err.Error())
+// ---- reference recogniser: PEG semantics of third_party/propertyparser.peg, anchored at EOF ----
+
+type refP struct {
+	s   string
+	pos int
+}
+
+func isNs(c byte) bool {
+	return (c >= 'a' && c <= 'z') || (c >= 'A' && c <= 'Z') || (c >= '0' && c <= '9') || c == '_' || c == '-'
+}
+
+func isProp(c byte) bool { return isNs(c) || c == '.' || c == '\\' || c == '/' }
+
+func isMod(c byte) bool { return c == '"' || c == '^' || c == ',' || c == '*' }
+
+func isWs(c byte) bool { return c == ' ' || c == '\n' || c == '\t' || c == '\r' }
+
+func (p *refP) ws() {
+	for p.pos < len(p.s) && isWs(p.s[p.pos]) {
+		p.pos++
 	}
 }
+
+// canonical rendering shared by the reference and by the real parser's result
+func renderIri(value string, inverse, transitive bool) string {
+	r := "I[" + value
+	if inverse {
+		r += "^"
+	}
+	if transitive {
+		r += "*"
+	}
+	return r + "]"
+}
+
+func (p *refP) iri() (string, bool) {
+	start := p.pos
+	i := p.pos
+	for i < len(p.s) && isNs(p.s[i]) {
+		i++
+	}
+	if i == start || i >= len(p.s) || p.s[i] != '.' {
+		return "", false
+	}
+	dot := i
+	i++
+	ps := i
+	for i < len(p.s) && isProp(p.s[i]) {
+		i++
+	}
+	if i == ps {
+		return "", false
+	}
+	val := p.s[start:dot] + "." + p.s[ps:i]
+	p.pos = i
+	p.ws()
+	inv, tr := false, false
+	if p.pos < len(p.s) && isMod(p.s[p.pos]) {
+		if p.s[p.pos] == '^' {
+			inv = true
+		}
+		if p.s[p.pos] == '*' {
+			tr = true
+		}
+		p.pos++
+	}
+	return renderIri(val, inv, tr), true
+}
+
+func (p *refP) factor(depth int) (string, bool) {
+	save := p.pos
+	if depth > 0 && p.pos < len(p.s) && p.s[p.pos] == '(' {
+		p.pos++
+		p.ws()
+		if e, ok := p.expression(depth - 1); ok {
+			p.ws()
+			if p.pos < len(p.s) && p.s[p.pos] == ')' {
+				p.pos++
+				return e, true
+			}
+		}
+		p.pos = save
+	}
+	if r, ok := p.iri(); ok {
+		return r, true
+	}
+	p.pos = save
+	if p.pos+5 <= len(p.s) && p.s[p.pos:p.pos+5] == "@type" {
+		p.pos += 5
+		return renderIri("@type", false, false), true
+	}
+	return "", false
+}
+
+func (p *refP) list(depth int, sep byte, tag string, item func(int) (string, bool)) (string, bool) {
+	head, ok := item(depth)
+	if !ok {
+		return "", false
+	}
+	acc := head
+	n := 1
+	for {
+		save := p.pos
+		p.ws()
+		if p.pos < len(p.s) && p.s[p.pos] == sep {
+			p.pos++
+			p.ws()
+			if next, ok := item(depth); ok {
+				acc += "," + next
+				n++
+				continue
+			}
+		}
+		p.pos = save
+		break
+	}
+	if n == 1 {
+		return acc, true
+	}
+	return tag + "(" + acc + ")", true
+}
+
+func (p *refP) term(depth int) (string, bool) { return p.list(depth, '|', "OR", p.factor) }
+
+func (p *refP) expression(depth int) (string, bool) { return p.list(depth, '/', "AND", p.term) }
+
+// refSentence: is the WHOLE string a sentence, and what structure does the grammar assign?
+func refSentence(s string, depth int) (string, bool) {
+	p := &refP{s: s}
+	e, ok := p.expression(depth)
+	if !ok || p.pos != len(s) {
+		return "", false
+	}
+	return e, true
+}
+
+func renderPath(pp PropertyPath) string {
+	switch x := pp.(type) {
+	case Property:
+		return renderIri(x.Iri, x.Inverse, x.Transitive)
+	case AndPath:
+		acc := ""
+		for i, e := range x.And {
+			if i > 0 {
+				acc += ","
+			}
+			acc += renderPath(e)
+		}
+		return "AND(" + acc + ")"
+	case OrPath:
+		acc := ""
+		for i, e := range x.Or {
+			if i > 0 {
+				acc += ","
+			}
+			acc += renderPath(e)
+		}
+		return "OR(" + acc + ")"
+	case NullPath:
+		return "NULL"
+	}
+	return "?"
+}
+
+func verifParsePath(s string) (pp PropertyPath, err error, panicked bool) {
+	defer func() {
+		if r := recover(); r != nil {
+			panicked = true
+		}
+	}()
+	pp, err = ParsePath(s)
+	return
+}
+
+func verifInput(maxLen int) string {
+	n := 1 + v.Choice("len", maxLen)
+	s := v.Bytes("s", n)
+	for i := 0; i < n; i++ {
+		v.Assume(s[i] < 0x80)
+	}
+	return s
+}
+
+func trimRightWs(s string) string {
+	n := len(s)
+	for n > 0 && isWs(s[n-1]) {
+		n--
+	}
+	return s[:n]
+}
+
+func verifC16(maxLen int) {
+	s := verifInput(maxLen)
+	pp, err, panicked := verifParsePath(s)
+	accepted := !panicked && err == nil
+	// a sentence of the grammar, optionally followed by whitespace
+	ref, sentence := refSentence(trimRightWs(s), 3)
+	if accepted {
+		v.Reach("accepted")
+		v.Assert("C16.accept-only-sentences", sentence)
+		if sentence {
+			v.Reach("accepted-sentence")
+			v.Assert("C16.structure", renderPath(pp) == ref)
+			v.Assert("C16.source-kept", pp.Source() == s)
+		}
+	} else {
+		v.Reach("rejected")
+		v.Assert("C16.reject-is-error", !panicked && err != nil)
+		v.Assert("C16.sentences-accepted", !sentence)
+	}
+}
+
+// VerifC16Parse3 / 4 / 5: all ASCII strings up to the given length.
+func VerifC16Parse3() { verifC16(3) }
+func VerifC16Parse4() { verifC16(4) }
+func VerifC16Parse5() { verifC16(5) }
+func VerifC16Parse6() { verifC16(6) }
+func VerifC16Parse7() { verifC16(7) }
+
+// VerifC16Variants: redundant parentheses and optional whitespace do not change the structure.
+func verifC16Variants(maxLen int) {
+	s := verifInput(maxLen)
+	ref, sentence := refSentence(s, 2)
+	v.Assume(sentence)
+	v.Reach("sentence")
+	for _, variant := range []string{"(" + s + ")", "( " + s + " )", "((" + s + "))"} {
+		pp, err, panicked := verifParsePath(variant)
+		v.Assert("C16.parens-invariant.accepted", !panicked && err == nil)
+		if !panicked && err == nil {
+			v.Assert("C16.parens-invariant", renderPath(pp) == ref)
+		}
+	}
+}
+
+func VerifC16Variants3() { verifC16Variants(3) }
+func VerifC16Variants4() { verifC16Variants(4) }
+func VerifC16Variants5() { verifC16Variants(5) }
